@@ -1,4 +1,5 @@
 import Proofs.StringLit
+import Proofs.GenValue
 /-!
 # C11 — generated source reads back as the value it was generated from (string literals, labels, keys)
 
@@ -35,3 +36,62 @@ example : parseQuoted (escape (fun c => decide (32 ≤ c.toNat ∧ c.toNat < 127
   exact escape_unescape _ (by decide) _
 
 end HclModel.StringLit
+
+/-! ## whole values: `TokensForValue` → bytes → scanner → expression parser → evaluation
+
+`gen` is `appendTokensForValue`; `relex` is what scanning the written bytes again does to the one token that
+changes (`-m`); `parseTop` / `parseAttrValue` are `hclsyntax.ParseExpression` / the expression of an attribute
+in a body, restricted to the generated token alphabet, behind the peeker's newline-sensitivity stack;
+`evalLE` evaluates the constant expression (`HclModel/Write/GenValue.lean`, tied to the code by the `GENV`
+correspondence: generated tokens, re-scanned tokens and the value read back, on random values, plus the
+parser model against `ParseExpression` on random token strings over the same alphabet). -/
+namespace HclModel.GenValue
+
+/-- Every wholly known value — any nesting of sequences and maps/objects, any key strings (keywords, `for`,
+    strings that are not identifiers), negative numbers, empty collections, any string content — is written
+    as tokens that parse, as a stand-alone expression, to a constant expression whose value is the original
+    (`norm v`: a later definition of a key replaces an earlier one; the identity on values whose maps have
+    distinct keys, i.e. on every cty value: `readBack_exact`). Holds whatever `ValidIdentifier` and
+    `unicode.IsPrint` answer, as long as `{` is printable. -/
+theorem readBack_norm (c : Cfg) (hb : c.isPrint '{' = true) (v : GV) : readBack c v = some (norm v) := by
+  simp [readBack, Proofs.parseTop_gen c hb v, Proofs.evalLE_toLE]
+
+theorem readBack_exact (c : Cfg) (hb : c.isPrint '{' = true) (v : GV) (hd : keysDistinct v = true) :
+    readBack c v = some v := by
+  rw [readBack_norm c hb v, Proofs.norm_id v hd]
+
+/-- The same as the value of an attribute in a body (`SetAttributeValue`): newlines are significant there and
+    whatever follows the attribute's line does not matter. -/
+theorem readBackAttr_exact (c : Cfg) (hb : c.isPrint '{' = true) (v : GV) (after : List Tok)
+    (hd : keysDistinct v = true) : readBackAttr c v after = some v := by
+  simp [readBackAttr, Proofs.parseAttrValue_gen c hb v after, Proofs.evalLE_toLE, Proofs.norm_id v hd]
+
+/-- The parser builds exactly the expected constant expression (keys written bare come back as literal
+    names, quoted keys as strings, `-m` as a negation), in one pass with fuel linear in the token count. -/
+theorem parse_gen (c : Cfg) (hb : c.isPrint '{' = true) (v : GV) :
+    parseTop (relex (gen c v)) = some (Proofs.toLE c v) :=
+  Proofs.parseTop_gen c hb v
+
+/-- Why the key `for` must be quoted (repaired defect e8e9a2c): written bare as the first key, the object
+    constructor is taken for a `for` expression. -/
+theorem bare_for_key_not_an_object :
+    parseTop [.obrace, .newline, .ident kwFor, .equal, .num false 1, .newline, .cbrace] = none := by decide
+
+/-- …whereas the quoted form parses, also when `ValidIdentifier` accepts `for`. -/
+example : readBack ⟨fun _ => true, fun _ => true⟩ (.obj [(kwFor, .num false 1)]) = some (.obj [(kwFor, .num false 1)]) :=
+  readBack_exact _ rfl _ (by decide)
+
+/-- Why a negative number is safe only behind a separator: `[1 -2]` would be a subtraction (outside the
+    fragment, so `none`), the written `[1, -2]` is a two-element tuple. -/
+example : parseTop [.obrack, .num false 1, .minus, .num false 2, .cbrack] = none := by decide
+example : parseTop (relex (gen ⟨fun _ => true, fun _ => true⟩ (.seq [.num false 1, .num true 2]))) =
+    some (.tuple [.num 1, .neg (.num 2)]) := parse_gen _ rfl _
+
+/-- non-vacuity: nested, with keyword keys, an empty map inside a list inside a map, a key that is not an
+    identifier, an empty string -/
+example : readBack ⟨fun c => decide (32 ≤ c.toNat ∧ c.toNat < 127), fun k => k.all Char.isAlpha && !k.isEmpty⟩
+    (.obj [(kwTrue, .seq [.obj [], .num true 3, .str []]), ("a b".toList, .null), (kwFor, .bool false)]) =
+    some (.obj [(kwTrue, .seq [.obj [], .num true 3, .str []]), ("a b".toList, .null), (kwFor, .bool false)]) :=
+  readBack_exact _ (by decide) _ (by decide)
+
+end HclModel.GenValue
